@@ -33,6 +33,12 @@ BLIND = {  # did the owning check exist, unchanged, before the change was seen?
     'b6-C17': 'yes - caught (C17.R1 clip before cast); C17.R11 scalar table added as a shape-independent second opinion',
     'b6-C18': 'yes - caught (C18.R3)',
     'b6-C19': 'yes - caught by a signature accident; entry-level multi-subgraph graph-info table added (C19.R1)',
+    'b7-C02': 'yes - caught (C02.R7 rewrite simulation: an uncovered graph output is rewired; also C01.R15, C03.R11, C19.R11)',
+    'b7-C03': 'yes - caught (C03.R12 plan simulation, C10.R7 selection simulation, C09.R10)',
+    'b7-C05': 'yes - ANALYSIS-ERROR only (anchor _get_reduce_dims deleted); then decided by the exact array model: C04.R11 statistics table, C05.R11 numeric table',
+    'b7-C13': 'yes - MISSED: the interpreter compared dataclass values on ALL fields and did not know compare=False; fixed in consteval/absint, C13.R1 then reports',
+    'b7-C15': 'yes - caught (C15.R5 compatibility table is not symmetric)',
+    'b7-C16': 'yes - caught (C16.R5 path-split rule and C02.R3: signature outputs not retargeted on the large-model path)',
     'b3-C18': 'yes (written minutes before) - MISSED, then fixed', 'b3-C19': 'yes - caught by C10.R2 only, C19.R8 added', 'b3-C01': 'yes - MISSED (declared blind spot), then fixed',
 }
 
